@@ -9,9 +9,9 @@ META = {
     "property_id": "C13",
     "technique": "Coq proofs (primitive binary64 floats, Flocq for the rounding bound) about a bit-faithful Gallina model of statime's KalmanFilter and BasicFilter + differential correspondence of the model against the real filters behind a scripted recording clock (debug and release), commands compared as bit patterns",
     "category": "proof",
-    "text": "See Properties/C13.v: for every filter state, configuration and clock reply the frequency programmed by KalmanFilter::change_frequency is within next_up(max_freq_offset) unless it is NaN, and is NaN only if the frequency estimate is NaN (C13_freq_cmd_partial); the exact bound is refuted by a concrete witness (C13_freq_cmd_bounded_refuted, F12) and proved for the repaired steer path (C13_repaired_freq_cmd_bounded); steer steps iff not |offset| < threshold and the step is from_seconds(-offset) (C13_step_cmd); demobilize issues at most one frequency command and a fresh filter none (C13_demobilize_once); the basic filter's NaN command is refuted by witness (C13_basic_finite_refuted, F13) and excluded for the repaired filter. The model is tied to the code on every run by feeding identical measurement streams and clock replies to the real filters and to the model; the executable oracle ok_C13 is evaluated on the implementation's own command traces.",
+    "text": "See Properties/C13.v (model of /repo after fixes 4d80470, 3d2d7f9, b057ba6): C13_freq_cmd_bounded -- along every trajectory (any events, clock replies, length, exp, build mode, ANY estimator state incl. NaN/inf) every frequency command of the Kalman servo is finite with |f| <= max_freq_offset (exact); C13_step_cmd -- steer steps iff not |offset estimate| < threshold and the step is from_seconds(-estimate), otherwise at most one frequency command; C13_demobilize_once / C13_fresh_filter_quiet; C13_basic_finite -- every command of the basic filter is finite from any state; C13_F15_site_removed. The step-magnitude clause is checked by the oracle on implementation traces and by a kernel-evaluated lattice (C13_step_magnitude_grid_partial), not proved in general. The model is tied to the code on every run by feeding identical measurement streams and clock replies to the real filters and to the model (debug and release); the executable oracle ok_C13 is evaluated on the implementation's own command traces; any violation (no known findings remain) is reported as VIOLATION.",
     "design_ref": "DESIGN.md section 6 (C13)",
-    "level_note": "Trusted: Coq 8.16.1 kernel + vm_compute; Coq.Floats axioms (binary64 specification of the primitive float operations) and Flocq; hand-written model (validated by correspondence, not verified); libm exp is a parameter of the model (cases where a p-value comes within 1e-9 of a threshold are skipped and counted); Rust harness + generators. Finiteness of the Kalman state for all inputs is NOT proved (see evidence: not_proved). F12 and F13 are recorded known findings.",
+    "level_note": "Trusted: Coq 8.16.1 kernel + vm_compute; Coq.Floats axioms (binary64 specification of the primitive float operations) and Flocq; hand-written model (validated by correspondence, not verified); libm exp is a parameter of the model (cases where a p-value comes within 1e-9 of a threshold are skipped and counted); Rust harness + generators. The step-magnitude clause is not proved in general (see evidence: not_proved). F12, F13, F15 are fixed in /repo; historic witnesses are kept as C13_prefix_* theorems.",
 }
 
 _skips = {"n": 0, "shards": 0}
@@ -103,9 +103,8 @@ def run(tier, seed, replay=None):
         cov = ev.setdefault("coverage", {})
         cov["exp_threshold_skips"] = _skips["n"]
         cov["not_proved"] = [
-            "finiteness of the Kalman estimator state for ALL measurement sequences: C13_freq_cmd_partial allows a NaN command, C13_freq_cmd_nan_only_if shows it needs a NaN frequency estimate; no input producing one was found (search over 10^5 adversarial streams) except through an absurd configuration (initial_frequency_uncertainty >= 1.4e154)",
             "step magnitude >= threshold up to quantisation: checked by the oracle on every implementation trace and by a kernel-evaluated boundary lattice (C13_step_magnitude_grid_partial), not proved in general",
-            "the uniform statement forall input, kf = 0 -> ok_C13 (it would need the two items above)",
+            "absence of panics is not part of C13: a NaN estimator state (e.g. F24: zero measurement variance, zero delay estimate, one Measurement carrying both raw offsets -> 1/0) makes Duration::from_seconds panic before any command; such streams are generated and must correspond, they are C03 material",
         ]
         json.dump(ev, open(path, "w"), indent=1)
     except (OSError, ValueError):
